@@ -21,7 +21,7 @@ META = {
             "non-minimal zero} thorough) must be rejected, {1, 2, p-2, p-1} counted; ECDH nistp256/384/521 "
             "x role x {off-curve, infinity, empty, truncated, extended, (0,0), undecompressible compressed "
             "x, other curve's point, bad prefix}; X25519 x role x {14 low-order encodings, lengths "
-            "0/31/33}; client-side gex GROUP prime of 512, 768, 1023, 1024, 2048, 8192, 8193, 16384 bits "
+            "0/31/33, all-zero result from a lenient backend}; client-side gex GROUP prime of 512, 768, 1023, 1024, 2048, 8192, 8193, 16384 bits "
             "(+1025, 4096, 8191, 9000 thorough).",
     "note": "values are written into the real peer's message by a tap (packet re-framed); the sender "
             "is a real paramiko transport; exception classes are not judged here (C38)",
@@ -163,6 +163,11 @@ def cases(tier):
         for name, v, must in x25519_values():
             out.append({"kex": X25519, "victim": victim, "what": "x25519", "name": name,
                         "value": v.hex(), "must_reject": must})
+    for victim in ("server", "client"):
+        # a backend that does not itself refuse low-order points: the victim's X25519 private key is
+        # wrapped so that exchange() yields 32 zero bytes; paramiko's own all-zero test must abort
+        out.append({"kex": X25519, "victim": victim, "what": "x25519-zero-result",
+                    "name": "all-zero-shared-secret", "value": "", "must_reject": True})
     for kex in DH_KEX[4:]:
         for bits in gex_sizes(tier):
             out.append({"kex": kex, "victim": "client", "what": "gex-group", "name": "%d-bit" % bits,
@@ -187,10 +192,31 @@ def encode_value(c):
     return X.sstr(bytes.fromhex(c["value"]))
 
 
+class _ZeroKey:
+    """Stands for an X25519 private key of a backend that returns the all-zero result."""
+
+    def __init__(self, key):
+        self._key = key
+
+    def public_key(self):
+        return self._key.public_key()
+
+    def exchange(self, peer):
+        self._key.exchange(peer)
+        return b"\x00" * 32
+
+
+class ZeroResultTransport(K.RecTransport):
+    def _negotiate_keys(self, m):
+        K.RecTransport._negotiate_keys(self, m)
+        if getattr(self.kex_engine, "key", None) is not None:
+            self.kex_engine.key = _ZeroKey(self.kex_engine.key)
+
+
 def run_case(c):
     kex, victim = c["kex"], c["victim"]
     fam = X.family(kex)
-    enc = encode_value(c)
+    enc = encode_value(c) if c["what"] != "x25519-zero-result" else b""
     info = {}
 
     def rewrite_c2s(i, pl):
@@ -219,8 +245,18 @@ def run_case(c):
         return None
 
     def body(s):
-        p = K.kpair(kex, "ssh-ed25519")
-        if victim == "server":
+        if c["what"] == "x25519-zero-result":
+            if victim == "server":
+                p = F.Pair(hostkeys=("ed25519",), tclass=K.RecTransport, sclass=ZeroResultTransport)
+            else:
+                p = F.Pair(hostkeys=("ed25519",), tclass=ZeroResultTransport, sclass=K.RecTransport)
+            p.tc.get_security_options().kex = (kex,)
+            info["done"] = True
+        else:
+            p = K.kpair(kex, "ssh-ed25519")
+        if c["what"] == "x25519-zero-result":
+            pass
+        elif victim == "server":
             K.Mitm(p.c2s, rewrite_c2s)
         else:
             K.Mitm(p.s2c, rewrite_s2c)
@@ -260,6 +296,8 @@ def klass(c):
         return "too-small" if int(c["value"]) < 1024 else "too-large"
     if c["what"] == "x25519":
         return "low-order-point" if n.startswith("low") else "wrong-length"
+    if c["what"] == "x25519-zero-result":
+        return "all-zero-result"
     return n
 
 
